@@ -197,7 +197,9 @@ impl Listener<ClientState> for StateLog {
 
 async fn run_cli(tok: &[&str]) -> String {
     let min = min_version(tok[2]);
-    let mode_ca = tok[3] == "ca";
+    // `cad` / `ssd`: the deprecated constructor `TlsClientConfig::new` and a DNS host name
+    let mode_ca = tok[3] == "ca" || tok[3] == "cad";
+    let deprecated = tok[3] == "cad" || tok[3] == "ssd";
     let server_cert = tok[5];
     let name = tok[6];
     let port = free_port().await;
@@ -225,7 +227,26 @@ async fn run_cli(tok: &[&str]) -> String {
     };
     tokio::time::sleep(Duration::from_millis(300)).await;
 
-    let cfg = if mode_ca {
+    #[allow(deprecated)]
+    let cfg = if deprecated {
+        TlsClientConfig::new(
+            name,
+            &if mode_ca {
+                cert("ca1")
+            } else {
+                cert(tok.get(7).copied().unwrap_or(server_cert))
+            },
+            &cert(if mode_ca { "cli_operator" } else { "ss_a" }),
+            &key(if mode_ca { "cli_operator" } else { "ss_a" }),
+            None,
+            min,
+            if mode_ca {
+                CertificateMode::AuthorityBased
+            } else {
+                CertificateMode::SelfSigned
+            },
+        )
+    } else if mode_ca {
         TlsClientConfig::full_pki(
             if name == "-" { None } else { Some(name.to_string()) },
             &cert("ca1"),
@@ -249,7 +270,11 @@ async fn run_cli(tok: &[&str]) -> String {
     };
     let (tx, mut rx) = tokio::sync::mpsc::unbounded_channel();
     let (channel, task) = create_tls_client_task_with_options(
-        HostAddr::ip("127.0.0.1".parse().unwrap(), port),
+        if deprecated {
+            HostAddr::dns("localhost".to_string(), port)
+        } else {
+            HostAddr::ip("127.0.0.1".parse().unwrap(), port)
+        },
         doubling_retry_strategy(Duration::from_millis(2000), Duration::from_millis(2000)),
         cfg,
         Some(Box::new(StateLog { tx })),
